@@ -1945,6 +1945,10 @@ func (t *Topic) anotherUserSub(sess *Session, asUid, target types.Uid, asChan bo
 			modeGiven = t.accessFor(auth.LevelAuth)
 			// Enable new subscription even if default is no joiner.
 			modeGiven |= types.ModeJoin
+			if t.cat == types.TopicCatP2P {
+				// P2P topics have no default access: keep the mode within P2P limits, approver permission is mandatory.
+				modeGiven = (modeGiven & types.ModeCP2P) | types.ModeApprove
+			}
 		}
 
 		var modeWant types.AccessMode
